@@ -6,6 +6,7 @@ pub fn check(v: &View, vd: &mut Verdict) {
     barrier(v, vd, "C04", true);
     // "its call returns Ok": a message that was handled before the stop took effect answers its caller
     super::c02::handled_call_ok(v, vd, "C04");
+    super::c02::errors_after_death(v, vd, "C04");
 }
 
 /// the stop-barrier rules; `awaiters` = also the announcement rules (d) and the classes
